@@ -113,4 +113,28 @@ JudgeOvConvInt(e, i) ==
          ELSE IF i.tag = "undefined" /\ Side(a, i.rt) # "none" THEN [d |-> "skip", nt |-> FALSE, cls |-> cls]
          ELSE [d |-> (IF e.out # "ok" THEN "wrong_reaction" ELSE IF J(e.res) = WrapT(a, i.rt) THEN "ok" ELSE "wrong_value"),
                nt |-> NearEdge(a, i.rt), cls |-> cls]
+\* floating-point source -> integer destination i.rt under an overflow tag.  The source x = (-1)^n * M * 2^e is
+\* logged exactly.  Reading decision (DESIGN 6.0): in the bands max < x < max + 1 and min - 1 < x < min the source
+\* "lies outside the range" while its truncation is representable -- both outcomes are accepted there; x >= max + 1
+\* and x <= min - 1 must signal; otherwise the truncated value must be returned.
+JudgeOvConvF(e, i) ==
+    LET f == e.l  dt == i.rt
+        mag == IF f.e >= 0 THEN Shl(J(f.m), f.e) ELSE ShrTrunc(J(f.m), -f.e)          \* trunc(|x|)
+        tr == IF f.n = 1 THEN Neg(mag) ELSE mag                                         \* trunc(x)
+        integral == f.e >= 0 \/ ModPow2(J(f.m), -f.e) = Zero
+        \* static_cast<Source>(max()) rounds UP to max + 1 when max has more bits than the float's significand: the
+        \* predicate `rhs > Source(max)` then misses exactly x == max + 1 (known finding OVF-CONV-FLOAT-ROUNDED-MAX)
+        atRoundedMax == f.n = 0 /\ integral /\ tr = Add(TMax(dt), One) /\ BitLen(TMax(dt)) > i.lt.p
+        cls == <<"OvConvF", i.lt.p, i.path, i.tag, IF dt.s = 1 THEN "s" ELSE "u", dt.w, IF atRoundedMax THEN "at_rounded_max" ELSE "plain">>
+        side == Side(tr, dt)
+        \* ambiguity band: truncation in range but x itself beyond the bound
+        band == side = "none" /\ ~integral /\ (tr = TMax(dt) \/ (tr = TMin(dt) /\ f.n = 1))
+    IN IF f.c # "fin" \/ f.e > 20000 THEN [d |-> "skip", nt |-> FALSE, cls |-> cls]
+       ELSE IF i.tag \notin CheckedTags THEN [d |-> "skip", nt |-> FALSE, cls |-> cls]
+       ELSE IF band THEN
+            [d |-> (IF JudgeChecked(i.tag, dt, tr, e.out, J(e.res)) = "ok"
+                       \/ JudgeChecked(i.tag, dt, IF f.n = 1 THEN Sub(TMin(dt), One) ELSE Add(TMax(dt), One), e.out, J(e.res)) = "ok"
+                    THEN "ok" ELSE JudgeChecked(i.tag, dt, tr, e.out, J(e.res))),
+             nt |-> TRUE, cls |-> cls]
+       ELSE [d |-> JudgeChecked(i.tag, dt, tr, e.out, J(e.res)), nt |-> NearEdge(tr, dt), cls |-> cls]
 =============================================================================
